@@ -382,12 +382,22 @@ def r7_presence_through_format(ctx):
         yield o
 
 
+def r8_reads_are_pure(ctx):
+    """presence is read through Segment.get_value / len(): the reading methods of Segment, Composite and Element leave
+    the object as it was and remember nothing (a memo of get_value that set() does not clear makes the notes be
+    evaluated on values the segment no longer has).  C17.R6 (shared)."""
+    from . import c17
+    for o in c17.r6_reads_do_not_write(ctx):
+        yield o
+
+
 RULES = [
     Rule('C14.R1', 'syntax notes of every indexed map are well formed (parse as _split_syntax expects)', r1_data, floor=1500),
     Rule('C14.R2', 'letter list = branch labels = PRECL; fall-through rejects; position slices tile the note', r2_letters, floor=4),
     Rule('C14.R3', 'is_syntax_valid decided per letter over all presence patterns (notes of 2-4 positions, segments of 0-6 elements) against the X12 definitions', r3_semantics, floor=5),
     Rule('C14.R4', 'failed note -> ele_error code 10 iff E else 2, result cleared; satisfied note reports nothing', r4_routing, floor=3),
     Rule('C14.R7', 'shared with C01.R8: a composite of empty components formats to the empty string', r7_presence_through_format, floor=2),
+    Rule('C14.R8', 'shared with C17.R6: reading a segment (get_value, len, format) does not modify it and caches nothing', r8_reads_are_pure, floor=30),
     Rule('C14.R6', 'shared with C03.R2: the error node of a violated note is linked into the error tree on every path', r6_reports_reach_the_tree, floor=2),
     Rule('C14.R5', 'the element a note error is attached to is looked up without raising', r5_attachment_lookup, floor=2),
 ]
